@@ -20,6 +20,7 @@ import time
 
 from vmon import core
 
+ANCHORS = ['evo/tools/settings.py', 'evo/main_config.py']
 LEVEL = "fault_enumeration"
 SHARDS = {"quick": 8, "thorough": 16}
 RULE = ("crash points = every CALL/C_RETURN event of the settings code in scenarios {import on empty "
@@ -257,6 +258,12 @@ def count_events(run, scenario):
         if rc != 0 or not info:
             raise core.Inconclusive("cannot count the events of scenario %s (rc=%s %s)" % (scenario, rc, err))
         writes = [i for i, t in enumerate(info["trace"]) if t.startswith("CALL") and t.endswith(".write")]
+        lh = getattr(run, "_lh", None)
+        if lh is not None:
+            for fname, lines in info.get("line_hits", {}).items():
+                for rel in lh.hits:
+                    if fname.endswith(rel):
+                        lh.hits[rel].update(lines)
         return info["events"], writes
     finally:
         shutil.rmtree(base, ignore_errors=True)
